@@ -138,6 +138,17 @@ pub fn inputs(ctx: &mut Ctx) -> Vec<Vec<u8>> {
             v.push(b);
         }
     }
+    // two different inputs of EQUAL length (history-dependent client state keyed on length/address shows here)
+    let mut twin = v[0].clone();
+    if twin.is_empty() {
+        twin = vec![0x11; 4];
+        v.push(vec![0x22; 4]);
+    }
+    let last = twin.len() - 1;
+    twin[last] ^= 0x5a;
+    if !v.contains(&twin) {
+        v.push(twin);
+    }
     v
 }
 
